@@ -407,6 +407,9 @@ def _configure_node(var, data, nodemap, model):
                 continue  # prefer (a) over (a /) when concept is missing
             edges.insert(0, ('/', target, epis))
         else:
+            site = nodemap.get(target)
+            if push and site is not None and site[0] == target:
+                push = False  # node already established elsewhere
             if push:
                 nodemap[target] = (target, [])
                 target, _surprising = _configure_node(
